@@ -8,8 +8,9 @@ PROP=$1; DIR=$2; TIER=${3:-quick}; shift; shift; shift 2>/dev/null
 export GOFLAGS=-mod=mod GOPROXY=off GOSUMDB=off GOTOOLCHAIN=local
 NAME=$(basename $DIR)
 WT=/tmp/try/$PROP-$NAME-$$
+OUTNAME=${OUTNAME:-$PROP-$NAME}
 V=${V:-/verif}
-OUT=/verif/seeded/$PROP-$NAME
+OUT=/verif/seeded/$OUTNAME
 mkdir -p /tmp/try $OUT
 cp -r $DIR/patch.diff $DIR/demo.sh $DIR/meta.json $OUT/ 2>/dev/null
 for f in $DIR/*.go $DIR/*.pl $DIR/*.sh; do [ -f "$f" ] && cp "$f" $OUT/ ; done
